@@ -27,7 +27,7 @@ class C10(Prop):
     imports = ["Num.Kernels", "Run.RunNum"]
     coq_batch = 60
     rule = ("entropy, cross_entropy, kl_divergence over f64 and f32: non-negative arrays, normalised or not, zeros in p and/or q, "
-            "NaN placements, shapes of 1-3 dimensions, independently drawn layouts for p and q; bit-for-bit against the Flocq "
+            "subnormal p_i (with q_i = 0, p_i, 2 p_i, 4 p_i), NaN placements, shapes of 1-3 dimensions, independently drawn layouts for p and q; bit-for-bit against the Flocq "
             "model with ln as an oracle table recorded from the implementation's libm; independent oracle: the definition in "
             "double precision with a roundoff tolerance, plus the identities KL(p,p) = 0, H(p,q) = H(p) + KL(p,q), KL >= 0 for "
             "normalised p, q, H(p) <= ln n, NaN propagation. Non-trivial: >= 2 elements and some p_i > 0.")
@@ -45,6 +45,14 @@ class C10(Prop):
             norm = rng.chance(2, 3)
             p = prob_vec(n, rng, et, norm, rng.choice([0, 0, 1, 2]))
             q = prob_vec(n, rng, et, norm, rng.choice([0, 0, 0, 1]))
+            if rng.chance(1, 4):
+                # subnormal probabilities: positive, so their terms must NOT vanish (only p_i == 0 does)
+                subs = [5e-324, 1e-310, 2.0 ** -1023, 1.5e-308] if et == "f64" else [1e-45, 1e-40, 2.0 ** -127, 1.1e-38]
+                for _ in range(rng.range(1, 2)):
+                    k = rng.below(n)
+                    p[k] = FP(et).r(rng.choice(subs))
+                    q[k] = FP(et).r(p[k] * rng.choice([0.0, 1.0, 2.0, 4.0]))
+                norm = False
             nan_case = rng.chance(1, 10)
             if nan_case:
                 k = rng.below(n)
@@ -121,7 +129,8 @@ class C10(Prop):
             return [] if g == float("inf") else ["value: q_i = 0 under p_i > 0 must give +inf, got %r" % g]
         exact = -math.fsum(terms)
         mag = math.fsum(abs(t) for t in terms)
-        tol = 16 * (n + 4) * float(fp.u) * mag + 1e-300
+        # plus the absolute spacing of the subnormal range (products p_i ln(.) of subnormal p_i are rounded there)
+        tol = 16 * (n + 4) * float(fp.u) * mag + 4 * (n + 4) * (2.0 ** -149 if et == "f32" else 2.0 ** -1074) + 1e-300
         if not finite(g) or abs(g - exact) > tol:
             return ["value: %s = %r, definition %r (tolerance %.2e)" % (case.routine, g, exact, tol)]
         return []
